@@ -1,8 +1,97 @@
 //! Observations of the second-generation (delta) front end.
 
-pub fn lexd(_fields: &[&str]) -> String
+use crate::unescape;
+use penne::delta::lexer::{self, BaseToken, ValueTypeKeyword};
+
+fn vt_name(v: ValueTypeKeyword) -> String
 {
-	"todo".into()
+	v.to_string()
+}
+
+/// canonical dump of the second-generation lexer's tokens (same format as `lexa`)
+pub fn dump_delta_tokens(source: &[u8], tokens: &lexer::tokens::Tokens) -> String
+{
+	let mut out = Vec::new();
+	let errors: Vec<u16> = match tokens.errors()
+	{
+		Some(es) => es.codes(),
+		None => vec![],
+	};
+	let mut next_error = 0;
+	let base = tokens.base_tokens();
+	let mut id = tokens.first_token_id();
+	for (i, b) in base.iter().enumerate()
+	{
+		if i > 0
+		{
+			tokens.advance(&mut id);
+		}
+		if *b == BaseToken::EndOfSource
+		{
+			continue;
+		}
+		let loc = tokens.get_location(id);
+		let span = loc.span.clone();
+		let textb = source.get(span.clone()).unwrap_or(&[]);
+		let textstr = String::from_utf8_lossy(textb).to_string();
+		let vap = tokens.get_value_type_and_payload(id);
+		let payload = tokens.get_integer_payload(vap.payload_id());
+		let k = match b
+		{
+			BaseToken::Identifier => format!("I{}", textstr),
+			BaseToken::Builtin => format!("B{}", textstr.trim_end_matches('!')),
+			BaseToken::NakedDecimal => format!("D{}", payload.map(|p| p.to_string()).unwrap_or("?".into())),
+			BaseToken::BitInteger => format!("X{}", payload.map(|p| p.to_string()).unwrap_or("?".into())),
+			BaseToken::SuffixedInteger => format!(
+				"F{}:{}",
+				payload.map(|p| p.to_string()).unwrap_or("?".into()),
+				vt_name(vap.value_type())
+			),
+			BaseToken::CharLiteral => format!("C{}", payload.map(|p| p.to_string()).unwrap_or("?".into())),
+			BaseToken::BoolLiteral => format!("L{}", payload.map(|p| p.to_string()).unwrap_or("?".into())),
+			BaseToken::StringLiteral => "Q".to_string(),
+			BaseToken::ValueTypeKeyword => format!("T{}", vt_name(vap.value_type())),
+			BaseToken::Error =>
+			{
+				let c = errors.get(next_error).copied().unwrap_or(0);
+				next_error += 1;
+				format!("E{}", c)
+			}
+			BaseToken::Placeholder => "K_".to_string(),
+			BaseToken::BraceLeft => "S{".to_string(),
+			BaseToken::BraceRight => "S}".to_string(),
+			other =>
+			{
+				let name = other.to_string();
+				if name.chars().all(|c| c.is_ascii_alphanumeric())
+				{
+					format!("K{}", name)
+				}
+				else
+				{
+					format!("S{}", name)
+				}
+			}
+		};
+		out.push(format!("{}@{}-{}/{}:{}", k, span.start, span.end, loc.line_number, loc.line_offset));
+	}
+	if let Some(es) = tokens.errors()
+	{
+		if base.is_empty()
+		{
+			// empty_with_one_error
+			out.push(format!("E{}@only", es.codes().first().copied().unwrap_or(0)));
+		}
+	}
+	out.join(" ")
+}
+
+/// lexd <bytes>
+pub fn lexd(fields: &[&str]) -> String
+{
+	let src = unescape(fields.get(0).copied().unwrap_or(""));
+	let tokens = lexer::lex(&src, "f.pn");
+	dump_delta_tokens(&src, &tokens)
 }
 pub fn delta(_fields: &[&str]) -> String
 {
